@@ -283,7 +283,7 @@ func (w *World) AbsLines(real int) int {
 	return real - w.lineShift()
 }
 
-const extText = "verif-extension line one\nanother extension line\n"
+const extText = "verif-extension line one 100%s %d%% %v\nanother extension line with trailing blanks  \t\n"
 
 // Concrete is a concretised request.
 type Concrete struct {
